@@ -9,6 +9,7 @@ import (
 	"fmt"
 	"io"
 	"strings"
+	"sync"
 
 	"verifharness/internal/core"
 	"verifharness/internal/imggen"
@@ -79,6 +80,12 @@ func c18Build(cs c18Case) c18File {
 		if cs.Variant == "emptychunks" { // ancillary chunks without data (length field 0), alone and between others
 			anc = []imggen.PNGChunk{{Type: "prVt"}, {Type: "tEXt", Data: append([]byte("k\x00"), rng.Bytes(300)...)}, {Type: "emPt"}, {Type: "prVt"}, {Type: "tIME", Data: []byte{0x07, 0xe8, 2, 29, 12, 34, 56}}, {Type: "prVt"}}
 		}
+		if cs.Variant == "cicp-ancillary" {
+			// a cICP chunk (coding-independent code points) in front of the profile - both may be present -
+			// and the large ancillary chunks between the profile and IDAT
+			s.Pre = []imggen.PNGChunk{{Type: "cICP", Data: []byte{1, 13, 0, 1}}}
+			s.Post = append(s.Post, anc...)
+		}
 		if cs.Variant == "bigchunk" { // one chunk of 700 KiB, then a small one
 			anc = []imggen.PNGChunk{{Type: "tEXt", Data: append([]byte("k\x00"), rng.Bytes(700<<10)...)}, {Type: "tIME", Data: []byte{0x07, 0xe8, 2, 29, 12, 34, 56}}}
 		}
@@ -115,6 +122,12 @@ func c18Build(cs c18Case) c18File {
 			n := (len(icc) + 65518) / 65519
 			if strings.HasSuffix(cs.Variant, "-255chunks") && len(icc) >= 255 {
 				n = 255
+			}
+			if strings.Contains(cs.Variant, "-mpf") {
+				// APP2 segments that are not ICC chunks (multi-picture format, FlashPix) ahead of the profile
+				segs = append(segs, imggen.JPEGSeg{Marker: 0xE2, Payload: append([]byte("MPF\x00MM\x00\x2a\x00\x00\x00\x08\x00\x07"), rng.Bytes(40)...), Name: "APP2-MPF"},
+					imggen.JPEGSeg{Marker: 0xE2, Payload: append([]byte("FPXR\x00\x00\x01\x00\x00\x00\x00\x00\x00\x63\x09"), rng.Bytes(20)...), Name: "APP2-FPXR"},
+					imggen.JPEGSeg{Marker: 0xE2, Payload: []byte("MPF\x00"), Name: "APP2-stub"})
 			}
 			inter := strings.HasSuffix(cs.Variant, "-interleaved")
 			if inter && n < 3 && len(icc) >= 3 {
@@ -286,6 +299,20 @@ func (s *seekableSource) Seek(off int64, whence int) (int64, error) {
 	return s.pos, nil
 }
 
+var c18HistoryOnce sync.Once
+var c18History [][]byte
+
+func c18HistoryFiles() [][]byte {
+	c18HistoryOnce.Do(func() {
+		plain, _ := imggen.JPEGSpec{Precision: 8, W: 31, H: 17, Comps: imggen.StdComps(3, 2, 2), Entropy: []byte{1, 2, 3}}.Build()
+		prog, _ := imggen.JPEGSpec{Progressive: true, Precision: 8, W: 9, H: 8, Comps: imggen.StdComps(1, 1, 1), Before: []imggen.JPEGSeg{imggen.ICCChunkSeg(1, 1, bytes.Repeat([]byte("h"), 200))}, Entropy: []byte{1}}.Build()
+		png, _ := imggen.PNGSpec{W: 7, H: 9, Depth: 8, ColorType: 2, IDAT: []byte{1}}.Build()
+		vp8l, _ := imggen.WebPSpec{Kind: "VP8L", W: 12, H: 34, Payload: []byte{1, 2, 3, 4}}.Build()
+		c18History = [][]byte{plain, png, vp8l, prog, plain}
+	})
+	return c18History
+}
+
 func c18Check(cs c18Case) (kind, msg string, over int64) {
 	f := c18Build(cs)
 	var res loadResult
@@ -296,6 +323,15 @@ func c18Check(cs c18Case) (kind, msg string, over int64) {
 		for _, cut := range []int{f.needEnd / 2, f.needEnd - 5, f.needEnd * 3 / 4} {
 			_ = loadWith(cs.Loader, bytes.NewReader(f.head[:cut]))
 			_ = loadWith(cs.Loader, src.New(f.head).FaultAt(int64(cut)))
+		}
+	}
+	if cs.Seed&16 != 0 {
+		// history: complete small files of the other formats go through every loader first (a JPEG
+		// without a profile is read up to its start of scan, a profiled one up to its frame header ...)
+		for _, other := range c18HistoryFiles() {
+			for _, l := range loaderNames {
+				_ = loadWith(l, bytes.NewReader(other))
+			}
 		}
 	}
 	if cs.Schedule == "seekable" {
@@ -390,6 +426,12 @@ func c18Cases(seed int64, thorough bool) []c18Case {
 	for _, pl := range []string{"after-header", "after-ancillary", "after-sof"} {
 		add("JPEG", "baseline-interleaved", pl, 900)
 		add("JPEG", "progressive-interleaved", pl, 150<<10)
+	}
+	add("PNG", "cicp-ancillary", "after-header", 500)
+	add("PNG", "cicp-ancillary", "after-header", 100<<10)
+	for _, pl := range []string{"after-header", "after-ancillary", "after-sof"} {
+		add("JPEG", "baseline-mpf", pl, 900)
+		add("JPEG", "progressive-mpf-interleaved", pl, 150<<10)
 	}
 	add("JPEG", "dnl", "none", 0)
 	add("JPEG", "dnl", "after-header", 500)
